@@ -110,27 +110,27 @@ func runC17(c *Ctx) {
 	// ClearVirtualHost cuts both suffix kinds
 	if cv := c.MustFunc("pkg/edition/java/lite:ClearVirtualHost"); cv != nil {
 		want := map[string]string{"\x00": "Forge marker (NUL)", "///": "TCPShield real-ip separator"}
+		// what the returned string is: a chain of cuts/trims of the parameter (Split(..)[0], SplitN(..)[0],
+		// Cut and helpers around them are one operation)
 		got := map[string]bool{}
-		for _, ci := range callsIn(cv, func(nm string, cc *ssa.CallCommon) bool { return nm == "strings.Split" || nm == "strings.SplitN" || nm == "strings.Cut" }) {
-			if s, ok := constString(ci.Common().Args[1]); ok {
-				// the first part is what is kept
-				kept := false
-				if v, isV := ci.(ssa.Value); isV && v.Referrers() != nil {
-					for _, ref := range *v.Referrers() {
-						switch x := ref.(type) {
-						case *ssa.IndexAddr:
-							if k, isK := constInt(x.Index); isK && k == 0 {
-								kept = true
-							}
-						case *ssa.Extract:
-							if x.Index == 0 {
-								kept = true
-							}
-						}
+		first := true
+		for _, r := range successReturns(cv) {
+			src, steps := strChain(retVal(r, 0), 2)
+			here := map[string]bool{}
+			if strip(src) == ssa.Value(cv.Params[0]) {
+				for _, st := range steps {
+					if st.Kind == "cut" {
+						here[st.Arg] = true
 					}
 				}
-				if kept {
-					got[s] = true
+			}
+			if first {
+				got, first = here, false
+				continue
+			}
+			for k := range got {
+				if !here[k] {
+					delete(got, k)
 				}
 			}
 		}
@@ -399,4 +399,5 @@ func runC17(c *Ctx) {
 		c.CheckAt("initial", "nextServerToTry(nil)@connectToInitialServer", c.P.Pos(ci.Pos()), ok, "the initial server must come from the forced-hosts / try-list cursor")
 	}
 	_ = constant.MakeBool
+	checkExclusionAlive(c)
 }
